@@ -87,6 +87,9 @@ fn main() {
     if args.len() >= 10 && args[1] == "scrypt-child" {
         c18::child_main(&args[2..]);
     }
+    if args.len() >= 4 && args[1] == "ffi-huge" {
+        c18::ffi_huge_main(&args[2..]);
+    }
     if args.len() >= 4 && args[1] == "c20-envchild" {
         c20::envchild_main(&args[2..]);
     }
